@@ -963,6 +963,12 @@ impl CodegenContext {
                                 }
                                 offset as i64
                             } else {
+                                // The branch still takes up its two bytes: if it emitted nothing, everything behind it
+                                // (a forward target included) would be two bytes closer in this pass and the branch
+                                // would be in and out of range on alternating passes, without ever being reported
+                                if let Ok(bytes) = get_opcode_bytes(i.mnemonic.data, am, suffix, 0) {
+                                    self.emit(full_span, &bytes)?;
+                                }
                                 return Err(Diagnostic::error()
                                     .with_message(format!(
                                         "branch too far trying to reach ${:4X} from ${:4X}",
